@@ -18,9 +18,16 @@ package router
 // Each operation is one correspondence line for the Lean model (egodriver C24); the content
 // of loginAttempts is dumped after prunes and at the end of each history.
 //
+// The CONFIGURATION may change in the middle of a history (operation "cfg": an administrator
+// sets ego.server.auth.maxattempts / ego.server.auth.lockout while records exist), in
+// particular to limit 0 while a lockout is running, and back.
+//
 // The direct oracle needs no model: it follows, per lower-cased user name, the OBSERVED
 // outcomes (consecutive denied attempts since the last success, time of the denied attempt
 // at which that streak reached the limit) and demands locked/not-locked accordingly.
+// Under configuration changes: a denied attempt counts against the limit in force at that
+// attempt (none while the limit is 0), a lockout lasts for the lockout period in force when
+// it began, and with the limit at 0 no attempt is ever refused, whatever happened before.
 
 import (
 	"errors"
@@ -55,11 +62,14 @@ func (s *c24Store) ReadUser(session int, name string, doNotLog bool) (defs.User,
 
 	return defs.User{}, errors.New("no such user")
 }
-func (s *c24Store) WriteUser(session int, user defs.User) error { s.users[user.Name] = user; return nil }
-func (s *c24Store) DeleteUser(session int, name string) error   { delete(s.users, name); return nil }
-func (s *c24Store) ListUsers(bool) map[string]defs.User         { return s.users }
-func (s *c24Store) Flush() error                                { return nil }
-func (s *c24Store) Close() error                                { return nil }
+func (s *c24Store) WriteUser(session int, user defs.User) error {
+	s.users[user.Name] = user
+	return nil
+}
+func (s *c24Store) DeleteUser(session int, name string) error { delete(s.users, name); return nil }
+func (s *c24Store) ListUsers(bool) map[string]defs.User       { return s.users }
+func (s *c24Store) Flush() error                              { return nil }
+func (s *c24Store) Close() error                              { return nil }
 
 // ---------------------------------------------------------------- configuration table
 
@@ -120,10 +130,12 @@ func c24NewStore() *c24Store {
 // ---------------------------------------------------------------- history
 
 type c24Op struct {
-	kind string // att, adv, prune, chk, fail, succ
+	kind string // att, adv, prune, chk, fail, succ, cfg
 	user int    // index in c24Users
 	pw   string // g (right password), b (wrong), e (empty)
 	d    time.Duration
+	lim  c24Limit // cfg: the new settings
+	dur  c24Dur
 }
 
 func (o c24Op) String() string {
@@ -134,6 +146,8 @@ func (o c24Op) String() string {
 		return fmt.Sprintf("adv %d", int64(o.d))
 	case "prune":
 		return "prune"
+	case "cfg":
+		return fmt.Sprintf("cfg maxattempts=%q lockout=%q", o.lim.setting, o.dur.setting)
 	default:
 		return fmt.Sprintf("%s %q", o.kind, c24Users[o.user].name)
 	}
@@ -170,10 +184,12 @@ type c24Track struct {
 	streak  int
 	lockSet bool
 	lockT   time.Duration
+	lockEnd time.Duration // lockT + the lockout period in force at lockT
 	// the same, but forgetting what a prune of a stale, unlocked entry may forget
 	aStreak  int
 	aLockSet bool
 	aLockT   time.Duration
+	aLockEnd time.Duration
 	aLast    time.Duration
 }
 
@@ -207,9 +223,14 @@ func (c *c24Run) fail(class, what string, h c24Hist, upto int, got, want string)
 	}
 }
 
+// what an administrator does through the configuration API, records untouched
+func c24Set(lim c24Limit, dur c24Dur) {
+	settings.Set(defs.AuthMaxAttemptsSetting, lim.setting)
+	settings.Set(defs.AuthLockoutDurationSetting, dur.setting)
+}
+
 func c24Configure(h c24Hist) {
-	settings.Set(defs.AuthMaxAttemptsSetting, h.lim.setting)
-	settings.Set(defs.AuthLockoutDurationSetting, h.dur.setting)
+	c24Set(h.lim, h.dur)
 
 	loginAttemptsMu.Lock()
 	loginAttempts = map[string]*loginRecord{}
@@ -323,12 +344,19 @@ func (c *c24Run) exec(t *testing.T, h *c24Hist, stream string, onlyID *string, g
 				time.Sleep(op.d)
 				emit(fmt.Sprintf("adv %d", int64(op.d)), "ok")
 
+			case "cfg":
+				c24Set(op.lim, op.dur)
+
+				L, D = op.lim.limit, op.dur.d
+				emit(fmt.Sprintf("cfg %d %d", L, int64(D)), "ok")
+				c.stats.Inc("ops.cfg")
+
 			case "prune":
 				pruneLoginAttempts()
 				emit("prune", "ok")
 
 				for _, k := range tr {
-					if k.aStreak > 0 && k.aLast+2*D < now && !(k.aLockSet && now <= k.aLockT+D) {
+					if k.aStreak > 0 && k.aLast+2*D < now && !(k.aLockSet && now <= k.aLockEnd) {
 						k.aStreak, k.aLockSet = 0, false
 					}
 				}
@@ -386,14 +414,18 @@ func (c *c24Run) exec(t *testing.T, h *c24Hist, stream string, onlyID *string, g
 
 				// ---------------- direct oracle
 				k := get(id)
-				if k.lockSet && now == k.lockT+D {
+				if k.lockSet && now == k.lockEnd {
 					c.stats.Inc("att.at-unlock-instant")
 				}
 
-				literal := L > 0 && k.lockSet && now < k.lockT+D
-				aware := L > 0 && k.aLockSet && now < k.aLockT+D
+				if L == 0 && k.lockSet && now < k.lockEnd {
+					c.stats.Inc("att.limit-zero-in-window") // lockout disabled while a lockout is running
+				}
+
+				literal := L > 0 && k.lockSet && now < k.lockEnd
+				aware := L > 0 && k.aLockSet && now < k.aLockEnd
 				got := impl
-				wantLocked := fmt.Sprintf("locked (streak %d reached limit %d at t=%d, now t=%d, lockout %d)", k.streak, L, int64(k.lockT), int64(now), int64(D))
+				wantLocked := fmt.Sprintf("locked (streak %d reached the limit at t=%d, limit now %d, now t=%d, lockout until t=%d)", k.streak, int64(k.lockT), L, int64(now), int64(k.lockEnd))
 
 				if o.locked {
 					switch {
@@ -434,18 +466,18 @@ func (c *c24Run) exec(t *testing.T, h *c24Hist, stream string, onlyID *string, g
 						}
 
 						*k = c24Track{}
-					} else {
+					} else if L > 0 { // while lockout is disabled failures are not counted
 						k.streak++
-						if L > 0 && k.streak >= L {
-							k.lockSet, k.lockT = true, now
+						if k.streak >= L {
+							k.lockSet, k.lockT, k.lockEnd = true, now, now+D
 							c.stats.Inc("oracle.lock-started")
 						}
 
 						k.aStreak++
 						k.aLast = now
 
-						if L > 0 && k.aStreak >= L {
-							k.aLockSet, k.aLockT = true, now
+						if k.aStreak >= L {
+							k.aLockSet, k.aLockT, k.aLockEnd = true, now, now+D
 						}
 					}
 				}
@@ -470,10 +502,33 @@ func c24Gen(r *rand.Rand, h *c24Hist, n int) func(now time.Duration, tr map[stri
 	second := r.Intn(len(c24Users))
 	D := h.dur.d
 	pBad := 50 + r.Intn(45)
+	curLim, curDur := h.lim, h.dur
+	reconfigure := r.Intn(100) < 40 // histories in which an administrator changes the settings on the way
 
 	return func(now time.Duration, tr map[string]*c24Track, i int) (c24Op, bool) {
 		if i >= n {
 			return c24Op{}, false
+		}
+
+		if reconfigure && r.Intn(100) < 8 {
+			k := tr[c24ID(c24Users[focus].name)]
+			running := k != nil && k.lockSet && now < k.lockEnd
+			y := r.Intn(10)
+
+			switch {
+			case curLim.limit != 0 && running && y < 6:
+				curLim = c24Limits[0] // lockout disabled while the focus identity is locked out
+			case curLim.limit == 0 && y < 4:
+				curLim = h.lim // ... and back
+			case y < 8:
+				curLim = c24Limits[r.Intn(len(c24Limits))]
+			default:
+				curLim, curDur = c24Limits[r.Intn(len(c24Limits))], c24Durs[r.Intn(len(c24Durs))]
+			}
+
+			D = curDur.d
+
+			return c24Op{kind: "cfg", lim: curLim, dur: curDur}, true
 		}
 
 		x := r.Intn(100)
@@ -510,7 +565,7 @@ func c24Gen(r *rand.Rand, h *c24Hist, n int) func(now time.Duration, tr map[stri
 			cands := []time.Duration{0, 1, D - 1, D, D + 1, D / 2, 2 * D, 2*D + 1, 3 * D, time.Duration(r.Int63n(int64(2*D) + 1))}
 
 			if k != nil && k.lockSet {
-				if left := k.lockT + D - now; left > 0 {
+				if left := k.lockEnd - now; left > 0 {
 					cands = append(cands, left, left, left, left-1, left+1, left/2)
 				}
 			}
@@ -537,9 +592,26 @@ func c24Gen(r *rand.Rand, h *c24Hist, n int) func(now time.Duration, tr map[stri
 func c24GenRaw(r *rand.Rand, h *c24Hist, n int) {
 	D := h.dur.d
 	users := []int{0, 3, r.Intn(len(c24Users))}
+	reconfigure := r.Intn(2) == 0
 
 	for i := 0; i < n; i++ {
 		u := users[r.Intn(len(users))]
+
+		if reconfigure && r.Intn(100) < 8 {
+			op := c24Op{kind: "cfg", lim: c24Limits[r.Intn(len(c24Limits))], dur: h.dur}
+			if r.Intn(3) == 0 {
+				op.lim = c24Limits[0]
+			}
+
+			if r.Intn(4) == 0 {
+				op.dur = c24Durs[r.Intn(len(c24Durs))]
+			}
+
+			D = op.dur.d
+			h.ops = append(h.ops, op)
+
+			continue
+		}
 
 		switch x := r.Intn(100); {
 		case x < 40:
@@ -563,8 +635,21 @@ func c24Corpus() []c24Hist {
 	adv := func(d time.Duration) c24Op { return c24Op{kind: "adv", d: d} }
 	prune := c24Op{kind: "prune"}
 	s := time.Second
+	cfg := func(lim string, l int, dur string, d time.Duration) c24Op {
+		return c24Op{kind: "cfg", lim: c24Limit{lim, l}, dur: c24Dur{dur, d}}
+	}
 
 	return []c24Hist{
+		// the settings change while records exist: lockout disabled during a lockout (and back, inside and
+		// after the window), the limit lowered below / raised above the current streak, the period changed
+		{c24Limit{"2", 2}, c24Dur{"1h", time.Hour}, []c24Op{att(0, "b"), att(0, "b"), att(0, "g"), cfg("0", 0, "1h", time.Hour), att(0, "b"), att(1, "g"),
+			cfg("2", 2, "1h", time.Hour), att(0, "b"), att(0, "b"), att(0, "g")}},
+		{c24Limit{"2", 2}, c24Dur{"15m", 15 * time.Minute}, []c24Op{att(3, "b"), att(3, "b"), cfg("0", 0, "15m", 15*time.Minute), att(3, "b"), att(3, "e"), prune,
+			cfg("2", 2, "15m", 15*time.Minute), att(3, "g"), adv(15 * time.Minute), att(3, "g")}},
+		{c24Limit{"", 5}, c24Dur{"90s", 90 * s}, []c24Op{att(0, "b"), att(0, "b"), att(0, "b"), cfg("2", 2, "90s", 90*s), att(0, "g"), att(0, "b"), att(0, "b"), att(0, "g"),
+			cfg("6", 6, "90s", 90*s), att(0, "g"), adv(90 * s), att(0, "b"), att(0, "b"), cfg("0", 0, "", 15*time.Minute), att(0, "b"), cfg("3", 3, "", 15*time.Minute), att(0, "b"), att(0, "g")}},
+		{c24Limit{"1", 1}, c24Dur{"1s", s}, []c24Op{att(4, "b"), cfg("1", 1, "1h", time.Hour), att(4, "g"), adv(s), att(4, "g"), att(4, "b"), cfg("1", 1, "1s", s), adv(s), att(4, "g"),
+			adv(2 * s), prune, adv(time.Hour), att(4, "g")}},
 		// a failure exactly at the unlock instant must lock again (boundary of Before/After)
 		{c24Limit{"2", 2}, c24Dur{"1s", s}, []c24Op{att(0, "b"), att(0, "b"), att(0, "b"), adv(s), att(0, "b"), att(0, "b"), att(0, "g")}},
 		{c24Limit{"1", 1}, c24Dur{"3ns", 3}, []c24Op{att(3, "b"), adv(3), att(3, "b"), att(3, "b"), adv(2), att(3, "b"), adv(1), att(3, "g")}},
@@ -708,6 +793,8 @@ func (c *c24Run) execAnswers(t *testing.T, h *c24Hist, id string) []c24Obs {
 			switch op.kind {
 			case "adv":
 				time.Sleep(op.d)
+			case "cfg":
+				c24Set(op.lim, op.dur)
 			case "prune":
 				pruneLoginAttempts()
 			case "att":
